@@ -283,7 +283,8 @@ def check(pid, tier, seed):
     if tie_broken and not failing and cb["ok"]:
         for suite, qn, tn in cfg["suites"]:
             try:
-                rc, out, _err = run_harness([suite, seed + 7919, max(tn, qn * 10), "search"], 900)
+                # (bounded: a change that makes the real code loop or crawl must not stall the check)
+                rc, out, _err = run_harness([suite, seed + 7919, qn * 20, "search"], 600)
             except subprocess.TimeoutExpired:
                 continue
             for line in out.split("\n"):
